@@ -63,6 +63,23 @@ def special_cases():
     return c
 
 
+def combo_cases():
+    """products of a mode switch, a margin setting, a cursor motion and a printing tail, all with large numbers: a bound that is
+    dropped in one function typically needs state set up by another (origin mode + margins + motion + print)"""
+    res = []
+    modes = ["", "\x1b[?6h", "\x1b[?6l", "\x1b[6l", "\x1b[6h", "\x1b[?7l", "\x1b[4h", "\x1b[?69h"]
+    tails = ["A", "\n", "A\n", "\x1bM", "\x1bD"]
+    for big in ("65536", "1000000", "2147483647"):
+        margins = ["", f"\x1b[1;{big}r", f"\x1b[{big};{big}r", f"\x1b[?69h\x1b[1;{big}s"]
+        motions = [f"\x1b[{big};{big}H", f"\x1b[{big}d", f"\x1b[{big}B", f"\x1b[{big}e", f"\x1b[{big}E", f"\x1b[{big}G", f"\x1b[{big}C", f"\x1b[{big}a", f"\x1b[{big}`", f"\x1b[{big}A"]
+        for m in modes:
+            for r in margins:
+                for v in motions:
+                    for t in tails:
+                        res.append(esc(m + r + v + t))
+    return res
+
+
 def avatar_cases():
     c = []
     for ch in (b"A", b"\n", b"\x0c", b"\x19", b"\x16", b"\x1b"):
@@ -93,6 +110,11 @@ def run():
         cases.append(("avatar", seq, 0))
     for seq in avatar_cases():
         cases.append(("avatar", seq, 1))
+    combos = combo_cases()
+    if not thorough:
+        combos = rng.sample(combos, 1600)
+    for seq in combos:
+        cases.append(("ansi", seq, 0))
     # sixel payloads exported by TLC from SixelDecoder.tla (every payload of <= 4 tokens; the alphabet contains the repeat
     # counts 4096 and 9999999, which apply to whatever follows - '-' included): those with a large repeat, as DCS q ... ST
     from props import c14
@@ -129,8 +151,8 @@ def run():
     c.extra["distinct_nontrivial"] = len({(e, bytes(s)) for e, s, _m in cases})
     c.rule = ("the complete control-function table: every CSI final byte 0x40..0x7E x 8 intermediates x every parameter vector of length 0..2 over {0,1,80,25,2^16,10^6,2^31-1} "
               "(lengths 3..6 seeded), behind preludes (scrollback, 2^31 margins, insert mode + region); DCS macros (self/mutual recursion, chains, fan-out, hex repeat groups), sixel raster / "
-              "repeat / colour headers, every TLC-exported sixel payload of <= 4 tokens that contains a repeat count of 4096 or 9999999 (quick: 4000 of them), custom-font DCS payloads, Avatar repeats, music numbers. Each case runs under a 5 s watchdog and a 1 GiB address-space limit in a worker; a timeout, "
-              "allocation failure or stack overflow is a crash event judged by Trace_Term (Limit), as is a single character step > 5 s. R1: MC_Term huge slice - GrowthBounded on the model. "
+              "repeat / colour headers, products mode switch x margins x cursor motion x printing tail with parameters 65536 / 10^6 / 2^31-1 (4800; quick: 1600 of them), every TLC-exported sixel payload of <= 4 tokens that contains a repeat count of 4096 or 9999999 (quick: 4000 of them), custom-font DCS payloads, Avatar repeats, music numbers. Each case runs under a 5 s watchdog and a 1 GiB address-space limit in a worker; a timeout, "
+              "allocation failure or stack overflow is a crash event judged by Trace_Term (Limit), as is a single character step > 5 s or a single character that grows the row table by more than one screenful plus one macro expansion (Growth). R1: MC_Term huge slice - GrowthBounded on the model. "
               "distinct_nontrivial = number of distinct (emulation, byte string) cases.")
     c.assumptions = ["wall-clock limit 5 s per case and RLIMIT_AS 1 GiB per worker on this machine (generous fixed limits, as the property states)",
                      "background sixel decodes are joined before the case ends so their cost is attributed to it"]
